@@ -336,5 +336,7 @@ def run(chk, ctx):
     round3.sentinel_guard(chk, ctx)
     from . import round4, c06
     round4.fresh_iteration_input(chk, ctx)
+    round4.gate_index_default(chk, ctx)              # a dropped Map re-entry event must not mark slot 0 / a batch that was never launched
+    round4.teardown_scoped_to_terminated_groups(chk, ctx)   # retrying a nested fan-out leaves the enclosing join intact
     c06.r2(chk, ctx)                         # only replies of a terminated branch itself become Task.Terminated: healthy sibling joins complete
     chk.assume("one terminal event per branch reaches the join (C02/C03 clauses); indexed writes to distinct slots commute")
